@@ -207,8 +207,21 @@ pub struct RunInfo {
     pub start: Instant,
 }
 
+/// runs `f` on a helper thread and waits at most `secs`; None = it did not return. free-running (not
+/// schedule-controlled) calls into the application go through this: a change that makes the real worker pool
+/// deadlock would otherwise hang the check. after a None the caller records the violation and winds the run up
+/// (the stuck threads hold locks, nothing further can be trusted); the process exit kills them.
+pub fn with_deadline<T: Send + 'static>(secs: u64, f: impl FnOnce() -> T + Send + 'static) -> Option<T> {
+    let (tx, rx) = std::sync::mpsc::channel();
+    std::thread::spawn(move || {
+        let _ = tx.send(f());
+    });
+    rx.recv_timeout(std::time::Duration::from_secs(secs)).ok()
+}
+
 impl RunInfo {
     pub fn new(property: &'static str, tier: Tier) -> RunInfo {
+
         let seed = std::env::var("VERIF_SEED")
             .ok()
             .and_then(|s| s.parse::<u64>().ok())
